@@ -5,6 +5,8 @@ From Coq Require Import NArith List Bool.
 From AJ Require Import Model.Base Model.Pool Proofs.PoolProofs Model.Collection Proofs.CollProofs.
 From AJ Require Import Model.Value Model.JsonParse Model.MsgPack Proofs.ResourceBound.
 From AJ Require Import Model.StrBuild Proofs.StrBuildProofs Proofs.StrBufProofs.
+From AJ Require Gen.Config.
+From Coq Require Import ZArith.
 Local Open Scope N_scope.
 
 (* when no allocation fails — and also when some do — slots released by a removal are reused by later insertions
@@ -190,3 +192,11 @@ Theorem C06_buffer_store_n_release_n : forall g s n st ans st' ans',
   BInv g st -> bstore_n g st ans s n = Some (st', ans') -> bf_pool (bderef_n g st' s n) = bf_pool st.
 Proof. exact bstore_deref_n. Qed.
 Print Assumptions C06_buffer_store_n_release_n.
+
+(* the two constants of the builder model are the ones in the source (Gen/Config.v is regenerated from
+   Memory/StringBuilder.hpp on every run): initial capacity 31, growth to 2 * size + 1 *)
+Theorem C06_builder_constants_from_source :
+  Gen.Config.gen_sb_initial_capacity = Z.of_N initial_capacity /\
+  Gen.Config.gen_sb_growth_mul = 2%Z /\ Gen.Config.gen_sb_growth_add = 1%Z.
+Proof. repeat split; reflexivity. Qed.
+Print Assumptions C06_builder_constants_from_source.
